@@ -199,7 +199,7 @@ pub fn main(args: &[String]) {
     quiet_panics();
     let rows = read_ndjson(&args[0]);
     let res = par_map(&rows, threads(), |i, c| {
-        let m = if c.get("valid").is_some() { check_name(c) } else { check_case(i, c) };
+        let m = if c.get("valid").is_some() { check_name(c) } else { check_case(mix(i), c) };
         m.into_iter().map(|m| json!({"case": i, "input": c, "mismatch": m})).collect()
     });
     write_ndjson(&args[1], &res);
